@@ -136,6 +136,12 @@ where
     F: Fn(u64, &tokio::runtime::Runtime) + Sync,
 {
     let next = AtomicU64::new(0);
+    // the lead caps worker threads through VERIF_THREADS when the machine is shared
+    let threads = std::env::var("VERIF_THREADS")
+        .ok()
+        .and_then(|s| s.parse::<usize>().ok())
+        .filter(|n| *n >= 1)
+        .unwrap_or(threads);
     std::thread::scope(|s| {
         for t in 0..threads {
             let next = &next;
